@@ -99,8 +99,9 @@ def run(ck):
     name_scheme(ck, S, "C05-O6")
     # "decompressing compressed ones": a reader checks the trailer, so the archive's checksum must be the CRC-32 of what was compressed
     ck.rule("C05-O8", "the CRC-32 written into the gzip trailer is the standard one over every byte of the rotated file (shared with C08-O4): a wrong checksum makes the records unreadable for any gzip reader")
-    from rules.c08 import crc32
+    from rules.c08 import crc32, single_deflate_stream
     crc32(ck, S, "C05-O8")
+    single_deflate_stream(ck, S, "C05-O8")
     # ... over a listing that leaves no rotated file out (anchored, escaped pattern; plain and .gz; hidden files included)
     from rules.c06 import name_pattern
     name_pattern(ck, S, S.m["findNextIndexForDate"], "C05-O6", date_is_class=False)
@@ -163,6 +164,11 @@ def run(ck):
         ok, why = allowed_destructive(S, f, n, k)
         ck.ob("C05-O4", sitestr(f, n), ok, "%s: %s" % (describe(n)[:70], why) if ok else "unsanctioned destructive call %s: %s" % (describe(n)[:90], why),
               key="destructive|%s|%s|%s" % (strip_tmpl(f.name).split("::")[-1], k, why if not ok else "ok"))
+    # retention is sanctioned to delete *the oldest* rotated files only: which files it takes is decided by executing it by cases
+    from rules.rfs import retention_by_cases
+    v_, why_ = retention_by_cases(ck, S, "C05-O4")
+    if v_ is not None:
+        ck.ob("C05-O4", sitestr(S.m["removeOldFiles"]), v_, why_ if v_ else why_ + ": records that the configured limit says to keep are deleted", key="destructive|removeOldFiles|by-cases")
     # ---- O5
     from engine.inline import owner_of
     rr = F.reachable_from([S.m["rotateIfNeeded"]], virtual=False)
